@@ -994,6 +994,12 @@ def _bucket(n):
 def _check_scaling(chk, c, rep, r):
     """property clause 'data scaling at construction': min-max scaling of every feature to [0.05, 0.95], targets untouched"""
     data = fr(c['data']); sd = fr(r['data'])
+    eps = _de.EPS
+    if c.get('container') == 'float32' and c.get('style') != 'int':
+        # the implementation is handed a float32 array (_make_arrays): the property speaks about the values it receives, and
+        # scikit-learn keeps float32 arithmetic for float32 input - reference from the rounded values, bound with the float32 epsilon
+        import numpy as np
+        data = fr([[float(np.float32(v)) for v in x] for x in c['data']]); eps = 2.0 ** -23
     lo, hi = sx.rat(RANGE[0]), sx.rat(RANGE[1])
     if len(sd) != len(data):
         chk.violation('oracle:scaling', 'scaling-differs', _sig(c, 'scaling'), rep, dict(rows=len(sd), want=len(data)))
@@ -1006,7 +1012,7 @@ def _check_scaling(chk, c, rep, r):
         amp = float(max(abs(mn), abs(mx)) / (mx - mn)) if mx != mn else max(1.0, float(abs(mn)))
         for x, s in zip(data, sd):
             want = lo + (x[d] - mn) / (mx - mn) * (hi - lo) if mx != mn else lo
-            if not _de.close(s[d], want, 1e-12, 0, 1e-13 + 16 * _de.EPS * amp):
+            if not _de.close(s[d], want, 1e-12, 0, 1e-13 + 16 * eps * amp):
                 # sklearn's MinMaxScaler treats a feature whose range is below 10 * eps (absolute) as constant
                 tiny = mx != mn and (mx - mn) < 10 * F(1, 2 ** 52)
                 chk.violation('oracle:scaling', 'scaling-differs', _sig(c, 'scaling', range_below_10_eps=bool(tiny)), rep,
